@@ -604,6 +604,23 @@ Section Triangulation.
   Definition loop_index (L : Loop K) (i : nat) : res V :=
     match nth_error (verts L) i with Some v => Ok v | None => Panic 21%N end.
 
+  (** fix 4bb2ed8: the ear test of from_polygon.  An interior chord is not enough: the corner must be convex for the
+      polygon's normal and no other vertex of the outline (other for Point3D::compare) may lie in the triangle. *)
+  Fixpoint ear_blocked (ear : Tri K) (v0 v1 v2 : V) (vs : list V) : bool :=
+    match vs with
+    | [] => false
+    | p :: tl =>
+      if vcompare p v0 || vcompare p v1 || vcompare p v2 then ear_blocked ear v0 v1 v2 tl
+      else match tri_test_point ear p with Outside => ear_blocked ear v0 v1 v2 tl | _ => true end
+    end.
+  Definition ear_convex (P : Poly K) (v0 v1 v2 : V) : bool :=
+    vdot (vcross (vsub v1 v0) (vsub v2 v1)) (pnormal P) >? n0.
+  Definition ear_test (P : Poly K) (the_loop : Loop K) (v0 v1 v2 : V) (is_line is_diagonal : bool) : res bool :=
+    if negb (negb is_line && is_diagonal) then Ok false else
+    if negb (ear_convex P v0 v1 v2) then Ok false else
+    do ear <- tri_new v0 v1 v2;
+    Ok (negb (ear_blocked ear v0 v1 v2 (verts the_loop))).
+
   Definition MAX_ITER : nat := 1000.
   (** the capped loop: [fuel] = 1000 - (number of completed iterations); [count] = iterations started so far *)
   Fixpoint fp_loop (P : Poly K) (fuel : nat) (count anchor : nat) (the_loop : Loop K) (t : Mesh) : res Mesh :=
@@ -625,7 +642,8 @@ Section Triangulation.
       let potential_diag := seg_new v0 v2 in
       do is_line <- is_collinear v0 v1 v2;
       do is_diagonal <- loop_is_diagonal the_loop potential_diag;
-      if negb is_line && is_diagonal then
+      do is_ear <- ear_test P the_loop v0 v1 v2 is_line is_diagonal;
+      if is_ear then
         let '(t1, r) := mesh_push v0 v1 v2 last_added t in
         do _ <- r;
         let c (s : Seg K) (e : Edge) (m : Mesh) : Mesh * res unit :=
